@@ -262,6 +262,13 @@ def replay_ops(stream, lines, tag):
     return res, mism, ops
 
 
+def tag_other(prop, line):
+    """An oracle shared by several properties tags a failure with the properties it speaks for ("ORACLE-FAIL C04 ..." or
+    "ORACLE-FAIL C01,C04 ..."); an untagged failure speaks for every property that runs the oracle."""
+    m = re.match(r"ORACLE-FAIL (C\d\d(?:,C\d\d)*) ", line)
+    return bool(m) and prop not in m.group(1).split(",")
+
+
 def run_oracle(stream, seed, n, tier, tag, infile=None):
     """Property oracle on the implementation alone. Lines starting with ORACLE-FAIL are property failures."""
     cmd = [corr_bin(stream), stream, "-mode", "oracle", "-seed", str(seed), "-n", str(n), "-tier", tier]
@@ -519,7 +526,7 @@ def main(argv):
             # the oracles that drive real stacks measure wall-clock time (deadlines, "still blocked after …"): under
             # load a single run can report what is only slowness. Like a stream disagreement, an oracle failure must
             # come back when the same sample is run again (up to two more times) or it is recorded as unreproduced.
-            mine = [l for l in of if not (re.match(r"ORACLE-FAIL (C\d\d) ", l) and re.match(r"ORACLE-FAIL (C\d\d) ", l).group(1) != prop)]
+            mine = [l for l in of if not tag_other(prop, l)]
             if mine and ncases > 0 and os_ in TIMED_ORACLES and not any("did not finish within" in l for l in mine):
                 again = set()
                 for _ in range(2):
@@ -539,8 +546,7 @@ def main(argv):
                 failures.append({"kind": "tie", "stream": os_, "signature": "oracle-error " + os_, "detail": oout[-2000:]})
             for l in of:
                 # an oracle shared by several properties tags each failure with the property it speaks for
-                m = re.match(r"ORACLE-FAIL (C\d\d) ", l)
-                if m and m.group(1) != prop:
+                if tag_other(prop, l):
                     continue
                 failures.append({"kind": "oracle", "stream": os_, "signature": l[:600], "detail": l})
     notes["oracles"] = oracle_stats
@@ -647,14 +653,14 @@ def search(prop, cfg, failures, seed, tier, tag, known, known_hits):
                 if m:
                     fo.write(m.group(1) + "\n")
         of, ncases, oout = run_oracle(stream, seed, search_n(cfg, stream, tier), tier, tag, infile)
-        of = [l for l in of if not match_known(known, prop, l) and not (re.match(r"ORACLE-FAIL (C\d\d) ", l) and re.match(r"ORACLE-FAIL (C\d\d) ", l).group(1) != prop)]
+        of = [l for l in of if not match_known(known, prop, l) and not tag_other(prop, l)]
         targeted[stream] = (of, "oracle cases=%d unlisted-fails=%d" % (ncases, len(of)))
     # if a proof obligation or the tie itself broke, every oracle of the property is run wider
     wide = []
     if any(f["kind"] in ("obligation", "tie") for f in live):
         for os_ in cfg.get("oracles", []):
             of, ncases, oout = run_oracle(os_, seed + 1000, search_n(cfg, os_, tier), tier, tag, None)
-            wide += [l for l in of if not match_known(known, prop, l) and not (re.match(r"ORACLE-FAIL (C\d\d) ", l) and re.match(r"ORACLE-FAIL (C\d\d) ", l).group(1) != prop)]
+            wide += [l for l in of if not match_known(known, prop, l) and not tag_other(prop, l)]
     live_oracle = [f["detail"] for f in live if f["kind"] == "oracle"]
     reported = set()
     for f in live:
